@@ -345,9 +345,13 @@ fn compare_post<P: Payload + Clone>(
 /// preceding_siblings / following_siblings against the deque oracle of TLC, applied to the sequence
 /// the SAME real iterator yields when consumed forwards. This is a law of the iterators themselves,
 /// so it is also checked in real states that differ from the specification's.
-fn pulls_of_slot<P: Payload + Clone>(st: &mut Stats, ctx: &Ctx, b: &Bundle, prefix: &Option<Vec<Call>>, sim: &Sim<P>, slot: usize, limit: usize) {
+fn pulls_of_slot<P: Payload + Clone>(st: &mut Stats, ctx: &Ctx, b: &Bundle, prefix: &Option<Vec<Call>>, sim: &Sim<P>, slot: usize, limit: usize, spec: Option<&Obs>) {
     let keep = ctx.opts.keep;
-    let got = sim.observe(slot, limit);
+    // in a state that conforms to the specification the forward sequence is the specification's (so a
+    // truncated forward iteration cannot make the double-ended runs look consistent); otherwise it is
+    // what the same real iterator yields when consumed forwards
+    let real = sim.observe(slot, limit);
+    let got = spec.unwrap_or(&real);
     for (which, fwd) in [("kids", &got.kids), ("prec", &got.prec), ("foll", &got.foll)] {
         if fwd.len() >= limit {
             continue; // does not terminate: C02/C09 report that
@@ -428,7 +432,7 @@ fn compare_observers<P: Payload + Clone>(st: &mut Stats, ctx: &Ctx, b: &Bundle, 
         cmpe!(prev_e, "prev_traverse(End)");
 
         if ctx.opts.pulls {
-            pulls_of_slot(st, ctx, b, prefix, sim, slot, limit);
+            pulls_of_slot(st, ctx, b, prefix, sim, slot, limit, Some(exp));
         }
     }
     if ctx.opts.lookups {
@@ -559,7 +563,7 @@ fn run_bundle<P: Payload + Clone>(ctx: &Ctx, b: &Bundle, prefix: &Option<Vec<Cal
         if ctx.opts.pulls {
             for slot in 1..=base.count {
                 if base.live[slot - 1] {
-                    pulls_of_slot(st, ctx, b, prefix, &sim, slot, base.count + 1);
+                    pulls_of_slot(st, ctx, b, prefix, &sim, slot, base.count + 1, None);
                 }
             }
         }
